@@ -826,7 +826,7 @@ def gen_C15(rng, tier):
     elf = [c for c in gen_C19(random.Random(rng.getrandbits(32)), tier)[0] if c.startswith("mbi ")]
     if tier == "quick" and len(elf) > 400:
         elf = random.Random(rng.getrandbits(32)).sample(elf, 400)
-    cases += elf
+    cases += elf + elf_boundary_cases()
     dist["elf_tables"] = len(elf)
     # BootInformation::get_tag::<T>() with user-defined T: the tag of T's ID absent / first / behind others / twice, every size 8..40
     # a slice longer than the tag it starts with (ref_from_slice takes the size from the header, not from the slice)
@@ -1316,7 +1316,7 @@ def gen_C05(rng, tier):
     elf = [c for c in gen_C19(random.Random(rng.getrandbits(32)), tier)[0] if c.startswith("mbi ")]
     if tier == "quick" and len(elf) > 500:
         elf = random.Random(rng.getrandbits(32)).sample(elf, 500)
-    cases += elf
+    cases += elf + elf_boundary_cases()
     dist["elf_tables"] = len(elf)
     # EFI memory maps: descriptor strides, map lengths, iteration incl. the provided methods (nth beyond the end, count)
     efi = [c for c in gen_C18(random.Random(rng.getrandbits(32)), tier)[0] if c.startswith("mbi ")]
@@ -1461,6 +1461,30 @@ def gen_C18(rng, tier):
         dist=dist, exhaustive=(tier == "thorough"))
 
 
+def elf_boundary_cases():
+    """ELF-sections tags whose count / entry size / string-table index products are at and beyond 2^16 and 2^32 - deterministic
+    (they are part of C19's cases and are added unsampled wherever a sample of C19's cases is used)"""
+    cases = []
+    for (n, es) in ((0xFFFF, 0), (0x10000, 1), (3, 0x80000000), (0x10000, 0x10000), (0xFFFF, 0x10001), (0x04000001, 64),
+                    (0x06666667, 40), (0x04000000, 64), (0x80000000, 2), (0xFFFFFFFF, 0xFFFFFFFF), (2, 0x80000020)):
+        for payload in (64, 84 - 20, 40):
+            cases.append(mbi_case(E.mbi([E.t_elf(n, es, 0, bytes(payload))])))
+    for n in (0, 1, 2):
+        for (es, sh) in ((0x10000, 0x10000), (0x80000000, 2), (0xFFFFFFFF, 0xFFFFFFFF), (3, 0x55555556), (40, 0x06666667),
+                         (64, 0x04000000), (0x10000, 0xFFFF), (1, 0xFFFFFFFF), (0, 0xFFFFFFFF), (40, 0), (64, 1)):
+            cases.append(mbi_case(E.mbi([E.t_elf(n, es, sh, bytes(64 * max(n, 1)))])))
+    # entry sizes around 40 and 64 with exactly fitting, one-short and one-long tables (the r4-C05 family)
+    for es in (39, 40, 41, 48, 63, 64, 65):
+        for n in (1, 2, 3):
+            for L in (n * es - 1, n * es, n * es + 1):
+                table = bytearray(marker(max(L, 0), start=es + n))
+                for k in range(n):
+                    if k * es + 8 <= L:
+                        table[k * es + 4:k * es + 8] = E.u32(1)
+                cases.append(mbi_case(E.mbi([E.t_elf(n, es, 0, bytes(table)), E.t_cmdline("after")])))
+    return cases
+
+
 def gen_C19(rng, tier):
     dist = {}
     cases = []
@@ -1501,6 +1525,9 @@ def gen_C19(rng, tier):
                          (64, 0x04000000), (0x10000, 0xFFFF), (1, 0xFFFFFFFF), (0, 0xFFFFFFFF), (40, 0), (64, 1)):
             cases.append(mbi_case(E.mbi([E.t_elf(n, es, sh, bytes(64 * max(n, 1)))])))
             count(dist, "overflowing_products")
+    eb = elf_boundary_cases()
+    cases += eb
+    dist["boundary_products"] = len(eb)
     cases += gen_elfname(rng, 3000 if tier == "thorough" else 60, dist)
     cases += gen_bigelf(dist)
     return cases, dict(
